@@ -97,6 +97,14 @@ def verify(sh, folder, rows, label, heuristic, order, origin):
                     gagg[r[0]] = float('nan')
             bad = [(k, gagg.get(k), v) for k, v in eagg.items() if k not in gagg or not (abs(gagg[k] - v) <= 1e-9)]
             sh.check('aggregated-table', not bad and len(arows) == len(eagg), 'aggregated-score!=median-over-interactions', lambda: wit(wrong=bad[:6], aggregated=arows[:12]))
+        else:
+            # no interaction was scored against the label in this table: the aggregated table of this folder lists no constituent
+            # (an absent or empty file both say so; rows left over from an earlier summary of the same folder do not)
+            stale = []
+            if os.path.exists(p):
+                with open(p, newline='') as f:
+                    stale = [r for r in csv.reader(f, delimiter='\t') if r and any(c.strip() for c in r)][1:]
+            sh.check('aggregated-table', not stale, 'aggregated-table-lists-constituents-although-no-interaction-was-scored', lambda: wit(aggregated=stale[:12]))
     meds = set(round(v, 9) for v in exp.values())
     return len(exp) >= 3 and len(meds) > 1
 
